@@ -221,13 +221,13 @@ def flag_ed (flags_byte : Nat) : Bool := (decide ((flags_byte &&& ((1 : Nat) <<<
 /-- `verify_authentication_response`: the counter guard (true = reject) -/
 def signCountRejects (sign_count current : Int) : Bool := (((decide (sign_count > (0 : Int))) || (decide (current > (0 : Int)))) && (decide (sign_count ≤ current)))
 
-def authUpRejects (up : Bool) : Bool := (!up)
+def authUpRejects (require_uv up uv : Bool) : Bool := (!up)
 
-def authUvRejects (require_uv uv : Bool) : Bool := (require_uv && (!uv))
+def authUvRejects (require_uv up uv : Bool) : Bool := (require_uv && (!uv))
 
-def regUpRejects (require_up up : Bool) : Bool := (require_up && (!up))
+def regUpRejects (require_up require_uv up uv : Bool) : Bool := (require_up && (!up))
 
-def regUvRejects (require_uv uv : Bool) : Bool := (require_uv && (!uv))
+def regUvRejects (require_up require_uv up uv : Bool) : Bool := (require_uv && (!uv))
 
 -- [safetynet-guards] extracted
 /-- `verify_safetynet_timestamp`: true = raises ValueError; `now_seconds` is `int(time.time())` -/
@@ -293,7 +293,7 @@ def tpmAlgCoseAlgMap : List (String × Int) := [("TPM_ALG_SHA256", (-37)), ("TPM
 def tpmManufacturers : List String := [
   "id:414D4400", "id:414E5400", "id:41544D4C", "id:4252434D",
   "id:4353434F", "id:464C5953", "id:524F4343", "id:474F4F47",
-  "id:48504900", "id:48504500", "id:48495349", "id:49424d00",
+  "id:48504900", "id:48504500", "id:48495349", "id:49424D00",
   "id:49465800", "id:494E5443", "id:4C454E00", "id:4D534654",
   "id:4E534D20", "id:4E545A00", "id:4E534700", "id:4E544300",
   "id:51434F4D", "id:534D534E", "id:53454345", "id:534E5300",
